@@ -128,7 +128,7 @@ OWNERS = {
     ("node", "INSERT"): {"trellis.Trellis.create"},
     ("node", "DELETE"): {"trellis.Trellis.delete_detached"},
     ("dependency", "INSERT"): {"trellis.Node.add_source"},
-    ("dependency", "DELETE"): {"trellis.Node.del_sources", "trellis.Node.del_all_sources"},
+    ("dependency", "DELETE"): {"trellis.Node.del_sources", "trellis.Node.del_all_sources", "trellis.Node.del_all_sinks"},
     ("dynamic_dep", "INSERT"): {"workflow.Workflow.amend_step"},
     ("file", "state"): {"file.File.set_state", "file.File.initialize_row", "workflow.Workflow.update_file_hashes", "finalize.revert_optional_steps"},
     ("file", "hash"): {"workflow.Workflow.update_file_hashes", "finalize.revert_optional_steps"},
